@@ -370,8 +370,24 @@ def main(run: core.Run) -> None:
         if spec["inits"] and len(run.samples) < 6:
             run.sample({"spec": spec, "model_line_k_none": L.model_line(spec, None, deep)})
 
+    # ---- outside the model: an uninitialized initializer in a sub-graph of a model-local function
+    fb = L.function_body_probe()
+    stats["function_body_probe_" + fb["res"]] += 1
+    run.coverage["function_body_probe"] = fb
+    fb_failed = fb["res"] != "ValueError" or fb["files"]
+    if not fb["still_uninit"] or not fb["big_same"]:
+        all_props.append(({"name": "function_body_probe", "dir": "", "files": [], "inits": []}, None,
+                          f"function-body probe: in-memory model changed {fb}", "unchanged"))
+
     # ---- verdict
     findings = {f["id"]: f for f in run.open_findings()}
+    if fb_failed:
+        if "C20-D3" in findings:
+            run.known("C20-D3", f"uninitialized initializer in an If branch inside a model-local function is not refused: "
+                      f"res={fb['res']} files={fb['files']}")
+        else:
+            run.violation({"probe": "harness/c20_lib.py function_body_probe", "observed": fb},
+                          f"uninitialized initializer inside a function body is not refused before writing: {fb}")
     known_counts: Counter = Counter()
     failures = []
     for spec, k, detail, clause in all_props:
